@@ -9,7 +9,8 @@ pub(crate) fn meta_name_value_2_path(name_value: &MetaNameValue) -> syn::Result<
                 return lit.parse();
             }
         },
-        Expr::Path(path) => return Ok(path.path.clone()),
+        // `<T as Trait>::f` is not a plain path (its `path` is only `Trait::f`)
+        Expr::Path(path) if path.qself.is_none() => return Ok(path.path.clone()),
         _ => (),
     }
 
